@@ -49,7 +49,7 @@ theorem coverage_eq (recs : List TocRec) : coverage recs =
 
 /-- on an in-memory file the two models of `header.Read` are the same function -/
 theorem readR_mem (m : Nat) (f : Bytes) : readR m (memReader f) = Header.read m f := by
-  unfold readR Header.read
+  unfold readR readRG Header.read
   by_cases h6 : f.length < 6
   · rw [memReader_eof f 0 6 (by omega)]
     simp only [h6, if_true]
@@ -120,7 +120,7 @@ theorem readDir_mono {ra₁ ra₂ : ReaderAt} (h12 : ∀ off n b, ra₁ off n = 
 
 theorem readR_mono {ra₁ ra₂ : ReaderAt} (h12 : ∀ off n b, ra₁ off n = .ok b → ra₂ off n = .ok b)
     (m : Nat) (r : Nat × List TocRec) (h : readR m ra₁ = .ok r) : readR m ra₂ = .ok r := by
-  unfold readR at h ⊢
+  unfold readR readRG at h ⊢
   cases h0 : ra₁ 0 6 with
   | eof => rw [h0] at h; cases h
   | fault => rw [h0] at h; cases h
